@@ -862,3 +862,45 @@ def modifier_reset(F):
                 r.violate("%s | writes %s" % (fn["path"], pp.split(".", 1)[-1]), F.loc(fn, a),
                           "get_fn_modifier overwrites `%s`: entry/exit probe bodies (or the special-instrumentation flag) recorded earlier are discarded when a modifier is requested" % pp)
     return r
+
+
+def per_function_state(F):
+    """R-PER-FUNCTION-STATE: resolve_special_instrumentation walks one function at a time; the stacks that track *where in
+    the function* the walk is (block nesting) belong to one function.  A Vec that the per-function loop both pushes to and
+    pops from is therefore declared inside that loop, or re-initialised at the top of every iteration: a stack shared
+    across functions relies on every function leaving it balanced, which the function's own final `end` (it pops the
+    function-level entry) breaks."""
+    from vlib.facts import path_to
+    r = RuleResult("R-PER-FUNCTION-STATE",
+                   "in Module::resolve_special_instrumentation every stack (a Vec pushed to and popped from inside the per-function loop) is declared inside that loop or reset at the top of each iteration")
+    fn = F.one_fn(name="resolve_special_instrumentation", self_adt="Module")
+    r.analysed.append(fn["path"])
+    fors = [m for m in walk(fn["body"]) if m.get("k") == "Match" and m.get("src") == "ForLoopDesugar"]
+    outer = [m for m in fors if not any(m is not o and any(x is m for x in walk(o)) for o in fors)]
+    n = 0
+    for m in outer:
+        body = m["arms"][0]["body"]
+        inner_lets = {st["pat"]["hid"] for st in walk(body) if st.get("k") == "Let" and st["pat"].get("k") == "Binding"}
+        used = {}
+        for x in walk(body):
+            if x.get("k") == "MethodCall" and x["method"] in ("push", "pop"):
+                rc = peel(x["recv"])
+                if rc.get("k") == "Path" and rc.get("res", {}).get("r") == "local" and "Vec<" in (rc.get("ty") or ""):
+                    used.setdefault(rc["res"]["hid"], {"name": rc["res"].get("name"), "m": set(), "node": x})["m"].add(x["method"])
+        for hid, u in used.items():
+            if u["m"] != {"push", "pop"}:
+                continue
+            n += 1
+            inside = hid in inner_lets
+            reset = any((x.get("k") == "Assign" and peel(x["lhs"]).get("res", {}).get("hid") == hid) or
+                        (x.get("k") == "MethodCall" and x["method"] in ("clear", "truncate") and peel(x["recv"]).get("res", {}).get("hid") == hid)
+                        for x in walk(body))
+            ok = inside or reset
+            r.ob(ok, {"stack": u["name"], "declared": "inside the per-function loop" if inside else ("outside, reset per iteration" if reset else "outside, never reset")})
+            if not ok:
+                r.violate("%s | stack %s shared across functions" % (fn["path"], u["name"]), F.loc(fn, u["node"]),
+                          "the stack `%s` is pushed to and popped from while one function is walked but lives across functions and is never re-initialised: the function's final `end` pops its function-level entry, so every later function starts with a stack that is one short — branch depths resolve against the wrong block, or the walk panics on an empty stack" % u["name"])
+    r.count("stacks", n)
+    if n < 1:
+        r.undecided("no push/pop stack found in resolve_special_instrumentation's per-function loop (state kept elsewhere): not decided")
+    return r
